@@ -159,7 +159,46 @@ func checkStore(t fataler, where string, db util.NodeDB) int {
 	if err != nil {
 		t.Fatalf("%s: Iterate: %v", where, err)
 	}
+	checkReadBack(t, where, db)
 	return n
+}
+
+// checkReadBack: the other two read paths of a store (GetNode, MultiGetNode) hand out, for every key the store
+// lists, a node that is addressed by that key and has the listed encoding, in the order asked for.
+func checkReadBack(t fataler, where string, db util.NodeDB) {
+	var keys []util.Key
+	var encs [][]byte
+	_ = db.Iterate(context.Background(), func(ctx context.Context, key util.Key, node util.Node) error {
+		keys = append(keys, append(util.Key{}, key...))
+		encs = append(encs, append([]byte{}, node.Encode()...))
+		return nil
+	})
+	if len(keys) == 0 {
+		return
+	}
+	// ask in reverse order, so that an implementation answering in its own order is noticed
+	ask := make([]util.Key, len(keys))
+	for i := range keys {
+		ask[i] = keys[len(keys)-1-i]
+	}
+	nodes, err := db.MultiGetNode(ask)
+	if err != nil {
+		t.Fatalf("%s: MultiGetNode of %d listed keys: %v", where, len(ask), err)
+	}
+	if len(nodes) != len(ask) {
+		t.Fatalf("%s: MultiGetNode of %d listed keys returned %d nodes", where, len(ask), len(nodes))
+	}
+	for i, nd := range nodes {
+		j := len(keys) - 1 - i
+		if nd == nil || !bytes.Equal(nd.GetHashBytes(), ask[i]) || !bytes.Equal(nd.Encode(), encs[j]) {
+			t.Fatalf("%s: MultiGetNode answer %d for key %x: node %v is not the one stored under that key (encoding %x)", where, i, ask[i], nd, encs[j])
+		}
+		one, err := db.GetNode(ask[i])
+		if err != nil || !bytes.Equal(one.GetHashBytes(), ask[i]) || !bytes.Equal(one.Encode(), encs[j]) {
+			t.Fatalf("%s: GetNode(%x) = %v, %v: not the node stored under that key", where, ask[i], one, err)
+		}
+	}
+	ev.Class("readback-multiget", 1)
 }
 
 func TestStoredNodes(t *testing.T) {
